@@ -16,8 +16,8 @@ type Frame struct {
 }
 
 const (
-	FlagCompressed    = 0x01
-	FlagConnectEnd    = 0x02
+	FlagCompressed     = 0x01
+	FlagConnectEnd     = 0x02
 	FlagGRPCWebTrailer = 0x80
 )
 
